@@ -286,6 +286,12 @@ def run(repo, tier):
         if not rep.findings:
             raise
         rep.note('R5.6 not decided ({})'.format(str(e)[:160]))
+    # R5.7: the expansion pass keeps its own books right - an expansion of a different size moves exactly the labels behind the
+    # item and `position` follows the emitted bytes - which is what a label-dependent li / call / tail operand is computed from
+    for compress in (False, True):
+        for name, node, inc, out in LR.class_flow(facts, compress):
+            if name == pa.fn.name:
+                LR.check_conservation(rep, LR.pass_analysis(facts, name, frozenset(inc)), 'R5.7.layout', True)
     rep.floor('pseudo-instructions with a template', 27)
     rep.floor('base mnemonics produced by expansions', 5)
     return rep
